@@ -286,6 +286,13 @@ def r5(run, db):
                 p = op_place(s["rv"]["op"])
                 if p and p[0] in whole and any(e.startswith("d:1") for e in p[1]) and s["rv"]["op"]["k"] == "move":
                     holders.append(s["lhs"][0])
+        # the bound ticket may be moved on as a whole (`Some(admission) => admission` binds, then initialises `_admission`)
+        for _ in range(4):
+            for site, s in f.stmts():
+                if s["k"] == "assign" and s["rv"]["k"] == "use" and not s["lhs"][1] and s["rv"]["op"].get("k") == "move":
+                    p = op_place(s["rv"]["op"])
+                    if p and p[0] in holders and not p[1] and s["lhs"][0] not in holders:
+                        holders.append(s["lhs"][0])
         live = [h for h in holders if f.maybe_init_at(h, q.site)]
         run.check(len(live) >= 1, key + "|ticket-alive-at-enqueue", "the admission ticket is bound to local _%s which is still alive at the enqueue" % (live[0] if live else "?"),
                   "the admission ticket is not held across the enqueue (e.g. `let Some(_) = ..` drops it at once): a drain between admission and enqueue emits the marker before this message", q.where())
